@@ -2,6 +2,9 @@
    *_model_ok : the model computes what the implementation computed (correspondence)
    *_prop_ok  : the implementation's own output satisfies the property (oracle) *)
 From G02 Require Export Client.
+(* configured response-header rules: C16's model of header/header.go, imported read-only
+   (its meaning is T16_apply_is_spec); qualified names only, G16.Model is not imported *)
+Require G16.Model.
 Open Scope N_scope.
 
 Fixpoint bad_from {A} (f : A -> bool) (i : N) (l : list A) : list N :=
@@ -132,7 +135,10 @@ Definition gcase_model_ok (c : gcase) : bool :=
 
 (* ---------------------------------------------------------------- (e) end to end through the real proxy *)
 (* what the client must observe, derived from the origin's script alone *)
-Record xexp := { x_code : N; x_reason : option str; x_fields : list (str * list str); x_absent : list str; x_body : str; x_trailers : list (str * list str) }.
+Record xexp := { x_code : N; x_reason : option str; x_fields : list (str * list str); x_absent : list str; x_body : str; x_trailers : list (str * list str);
+                 x_origin : hmap; x_skip : list str }.
+(* x_origin / x_skip (used when response-header rules are configured): every header field of the origin's reply under its canonical name, and
+   the names the rule oracle does not judge (hop-by-hop and framing fields) *)
 (* x_reason: the origin's reason phrase (None: not compared — net/http's server writes its own in the http.Handler variant) *)
 (* x_absent: hop-by-hop field names (RFC 7230 6.1 and those nominated by the origin's Connection field) that must not reach the client *)
 Record exch := {
@@ -144,6 +150,7 @@ Record exch := {
   e_order : list str;       (* order of the keys in a Trailer line written by the header-only writer *)
   e_exp : xexp }.
 Record ecase := {
+  e_rules : list G16.Model.rule; (* the proxy's configured response-header rules (--response-header), in order *)
   e_v11 : bool;             (* the client speaks HTTP/1.1 *)
   e_want : N;               (* number of exchanges the client wanted to perform on the connection *)
   e_exchs : list exch;      (* the exchanges whose response arrived completely *)
@@ -155,14 +162,23 @@ Record ecase := {
                                sent (malformed chunk-size line, corrupt gzip the proxy had solicited): e_stream ends
                                with what the proxy had relayed of it *)
 
-Definition exch_resp (e : exch) : resp := set_hdr (e_snap e) (remove_hop_by_hop (r_hdr (e_snap e))).
-Definition exch_wire (e : exch) : str := resp_wire (e_closing e) (e_req e) (exch_resp e) (e_order e).
-Fixpoint survive_ok (closed : bool) (want : N) (i : N) (es : list exch) : bool :=
+(* the response modifiers run in this order: the configured rules (inner group), then the hop-by-hop modifier;
+   a CONNECT reply is not touched by the rules *)
+Definition mkrule (a : N) (n v : str) : G16.Model.rule :=
+  G16.Model.Build_rule (if a =? 0 then G16.Model.Remove else if a =? 1 then G16.Model.RemoveByPrefix else if a =? 2 then G16.Model.Empty
+                        else if a =? 3 then G16.Model.Add else G16.Model.RenameCase) n v.
+Definition ruled (rules : list G16.Model.rule) (q : req) (h : hmap) : hmap :=
+  if str_eqb (q_method q) (b "CONNECT") then h else G16.Model.apply_rules rules h.
+Definition exch_resp (rules : list G16.Model.rule) (e : exch) : resp :=
+  set_hdr (e_snap e) (remove_hop_by_hop (ruled rules (e_req e) (r_hdr (e_snap e)))).
+Definition exch_wire (rules : list G16.Model.rule) (e : exch) : str :=
+  resp_wire (e_closing e) (e_req e) (exch_resp rules e) (e_order e).
+Fixpoint survive_ok (rules : list G16.Model.rule) (closed : bool) (want : N) (i : N) (es : list exch) : bool :=
   match es with
   | [] => true
   | [e] => (* last completed exchange: the connection is closed iff the model says so, unless it was the last wanted *)
-      if conn_survives (e_closing e) (e_req e) (exch_resp e) then (i + 1 =? want) || negb closed else closed
-  | e :: r => conn_survives (e_closing e) (e_req e) (exch_resp e) && survive_ok closed want (i + 1) r
+      if conn_survives (e_closing e) (e_req e) (exch_resp rules e) then (i + 1 =? want) || negb closed else closed
+  | e :: r => conn_survives (e_closing e) (e_req e) (exch_resp rules e) && survive_ok rules closed want (i + 1) r
   end.
 (* the hypotheses of T02_roundtrip (ResponseProofs.wf_resp, restated here because Check.v comes
    before the proofs; Obligations.ob_wf_twin proves the two equal) hold of what the transport delivered *)
@@ -181,12 +197,12 @@ Definition wf_snapshot (q : req) (r : resp) (order : list str) : bool :=
 Definition ecase_model_ok (c : ecase) : bool :=
   (if e_broken c
    then (* the complete responses, then the aborted one; the connection ends iff a failed write returns errClose *)
-        has_prefix (e_stream c) (concat (map exch_wire (e_exchs c))) &&
-        forallb (fun e => conn_survives (e_closing e) (e_req e) (exch_resp e)) (e_exchs c) &&
+        has_prefix (e_stream c) (concat (map (exch_wire (e_rules c)) (e_exchs c))) &&
+        forallb (fun e => conn_survives (e_closing e) (e_req e) (exch_resp (e_rules c) e)) (e_exchs c) &&
         Bool.eqb (e_closed c) wr_write_error_closes
-   else str_eqb (concat (map exch_wire (e_exchs c))) (e_stream c) &&
-        survive_ok (e_closed c) (e_want c) 0 (e_exchs c)) &&
-  forallb (fun e => wf_snapshot (e_req e) (exch_resp e) (e_order e)) (e_exchs c).
+   else str_eqb (concat (map (exch_wire (e_rules c)) (e_exchs c))) (e_stream c) &&
+        survive_ok (e_rules c) (e_closed c) (e_want c) 0 (e_exchs c)) &&
+  forallb (fun e => wf_snapshot (e_req e) (exch_resp (e_rules c) e) (e_order e)) (e_exchs c).
 
 Definition values_match (got : list (str * str)) (want : str * list str) : bool :=
   list_str_eqb (field_values (fst want) got) (snd want).
@@ -197,10 +213,22 @@ Definition obs_matches (o : obs) (x : xexp) : bool :=
   forallb (fun n => match field_values n (o_fields o) with [] => true | _ => false end) (x_absent x) &&
   str_eqb (o_body o) (x_body x) &&
   forallb (values_match (o_trailers o)) (x_trailers x).
-Fixpoint all_match (os : list obs) (es : list exch) : bool :=
+(* configured response-header rules applied: the header set the documented meaning of the rules (C16: apply_rules = spec,
+   T16_apply_is_spec) gives for the origin's header is, name by name (any letter case), what the client sees — except for the
+   hop-by-hop and framing names, which the other parts of the oracle judge *)
+Definition fold_vals (n : str) (h : hmap) : list str := flat_map (fun kv => if eq_fold (fst kv) n then snd kv else []) h.
+Definition rules_fields_ok (rules : list G16.Model.rule) (q : req) (o : obs) (x : xexp) : bool :=
+  match rules with
+  | [] => true
+  | _ => let E := ruled rules q (x_origin x) in
+         forallb (fun n => existsb (eq_fold n) (x_skip x) ||
+                           is_perm (field_values n (o_fields o)) (map sanitize (fold_vals n E)))
+                 (keys E ++ keys (x_origin x) ++ map G16.Model.r_name rules)
+  end.
+Fixpoint all_match (rules : list G16.Model.rule) (os : list obs) (es : list exch) : bool :=
   match os, es with
   | [], [] => true
-  | o :: os', e :: es' => obs_matches o (e_exp e) && all_match os' es'
+  | o :: os', e :: es' => obs_matches o (e_exp e) && rules_fields_ok rules (e_req e) o (e_exp e) && all_match rules os' es'
   | _, _ => false
   end.
 (* oracle: the reference client, reading the connection, consumes exactly one response per
@@ -209,7 +237,7 @@ Fixpoint all_match (os : list obs) (es : list exch) : bool :=
 Definition ecase_prop_ok (c : ecase) : bool :=
   match client_parse_seq (e_v11 c) (map (fun e => q_method (e_req e)) (e_exchs c)) (e_stream c) with
   | Some (os, rest) =>
-      all_match os (e_exchs c) &&
+      all_match (e_rules c) os (e_exchs c) &&
       (if e_broken c
        then (* a response that cannot be completed must be the last thing on the connection *)
             e_closed c
@@ -244,7 +272,8 @@ Definition ecase_absent_ok (c : ecase) : bool :=
    exchange was not answered although the connection stayed open, 2 status code or reason phrase,
    3 an end-to-end field is missing or changed, 4 a hop-by-hop field reaches the client, 5 body, 6 trailers,
    7 the connection was kept after a response that could not be completed,
-   8 the proxy closed a connection on which every exchange had to be answered *)
+   8 the proxy closed a connection on which every exchange had to be answered,
+   9 a configured response-header rule was not applied as documented *)
 Definition obs_why (o : obs) (x : xexp) : N :=
   if negb ((o_code o =? x_code x) && match x_reason x with Some t => str_eqb (o_reason o) t | None => true end) then 2
   else if negb (forallb (values_match (o_fields o)) (x_fields x)) then 3
@@ -252,18 +281,21 @@ Definition obs_why (o : obs) (x : xexp) : N :=
   else if negb (str_eqb (o_body o) (x_body x)) then 5
   else if negb (forallb (values_match (o_trailers o)) (x_trailers x)) then 6
   else 0.
-Fixpoint all_why (os : list obs) (es : list exch) : N :=
+Fixpoint all_why (rules : list G16.Model.rule) (os : list obs) (es : list exch) : N :=
   match os, es with
-  | o :: os', e :: es' => let w := obs_why o (e_exp e) in if w =? 0 then all_why os' es' else w
+  | o :: os', e :: es' => let w := obs_why o (e_exp e) in
+                          if negb (w =? 0) then w
+                          else if negb (rules_fields_ok rules (e_req e) o (e_exp e)) then 9
+                          else all_why rules os' es'
   | [], [] => 0
   | _, _ => 1
   end.
 Definition ecase_why (c : ecase) : N :=
   match client_parse_seq (e_v11 c) (map (fun e => q_method (e_req e)) (e_exchs c)) (e_stream c) with
   | Some (os, rest) =>
-      if e_broken c then (let w := all_why os (e_exchs c) in if negb (w =? 0) then w else if e_closed c then 0 else 7)
+      if e_broken c then (let w := all_why (e_rules c) os (e_exchs c) in if negb (w =? 0) then w else if e_closed c then 0 else 7)
       else if nonempty rest then 1
-      else let w := all_why os (e_exchs c) in
+      else let w := all_why (e_rules c) os (e_exchs c) in
            if negb (w =? 0) then w
            else if (N.of_nat (length (e_exchs c)) =? e_want c) then 0
            else if e_closed c then (if e_must_complete c then 8 else 0) else 1
@@ -302,3 +334,26 @@ Definition wcase_prop_ok (c : wcase) : bool :=
                      end) (r_trailer r) &&
   (negb ((r_major r =? 1) && (r_minor r =? 1) && (r_cl r =? -1)%Z && negb (rfc_no_body (w_meth c) (r_code r))) ||
    list_bool_eqb (map nonempty (w_writes c)) (w_flags c)).
+
+(* ---------------------------------------------------------------- (l) logging must not alter messages *)
+(* The proxy logs bodies (--log-http body); a client reads a large response slowly while other
+   exchanges with bodies of their own pass through the proxy.  Bodies of several MiB are compared in
+   run-length form (byte, count): what the origin sent, and what the client received under that
+   response's head (delimited by its Content-Length). *)
+Record lcase := { l_want : list (N * N); l_got : list (N * N) }.
+Fixpoint rle_norm (l : list (N * N)) : list (N * N) :=
+  match l with
+  | [] => []
+  | (c, n) :: r => if n =? 0 then rle_norm r
+                   else match rle_norm r with
+                        | (c', n') :: r' => if c =? c' then (c, n + n') :: r' else (c, n) :: (c', n') :: r'
+                        | [] => [(c, n)]
+                        end
+  end.
+Fixpoint rle_eqb (x y : list (N * N)) : bool :=
+  match x, y with
+  | [], [] => true
+  | (a, n) :: x', (c, k) :: y' => (a =? c) && (n =? k) && rle_eqb x' y'
+  | _, _ => false
+  end.
+Definition lcase_prop_ok (c : lcase) : bool := rle_eqb (rle_norm (l_want c)) (rle_norm (l_got c)).
